@@ -1055,3 +1055,123 @@ pub fn c19_check(ops: &[Op], l: &crate::hsys::Layout, nmaps: usize) -> (u64, Vec
     }
     (n, vs)
 }
+
+
+// ---------------------------------------------------------------------------
+// C19: relabelling sweep.  Every plan of a small two-resource alphabet is built with its two resources
+// mapped onto every ordered pair of distinct ids of a universe of `nids` concrete ids (two types x many
+// dynamic ids).  By pigeonhole any scheme that sorts ids into fewer than `nids` classes (hash buckets,
+// truncated keys, signatures) puts two of them into one class, and the sweep visits that pair.
+// ---------------------------------------------------------------------------
+
+pub fn c19_sweep_plans(len: usize) -> Vec<Vec<Op>> {
+    // {read, write} x {P, Q} x running time {1, 5}
+    let mut alpha = Vec::new();
+    for res in [0u8, 1] {
+        for write in [false, true] {
+            for time in [1u8, 5] {
+                alpha.push((res, write, time));
+            }
+        }
+    }
+    let mut out: Vec<Vec<Op>> = Vec::new();
+    let mut frontier: Vec<Vec<(u8, bool, u8)>> = vec![vec![]];
+    for _ in 0..len {
+        let mut next = Vec::new();
+        for f in &frontier {
+            for a in &alpha {
+                let mut g = f.clone();
+                g.push(*a);
+                next.push(g);
+            }
+        }
+        for g in &next {
+            // both resources must occur, otherwise there is nothing to collide
+            if g.iter().any(|x| x.0 == 0) && g.iter().any(|x| x.0 == 1) {
+                out.push(
+                    g.iter()
+                        .enumerate()
+                        .map(|(i, (res, write, time))| {
+                            Op::Sys(SysSpec { name: format!("s{}", i), reads: if *write { vec![] } else { vec![*res] }, writes: if *write { vec![*res] } else { vec![] }, time: *time, deps: vec![] })
+                        })
+                        .collect(),
+                );
+            }
+        }
+        frontier = next;
+    }
+    out
+}
+
+pub fn c19_sweep(len: usize, nids: usize, deadline: Instant, threads: usize) -> E1Result {
+    let plans = c19_sweep_plans(len);
+    let next = AtomicUsize::new(0);
+    let results: Mutex<Vec<(E1Stats, Collector)>> = Mutex::new(Vec::new());
+    let nids = nids.min(256 - NCONCRETE);
+    std::thread::scope(|sc| {
+        for _ in 0..threads.max(1) {
+            sc.spawn(|| {
+                let mut st = E1Stats::default();
+                let mut col = Collector::default();
+                loop {
+                    let i = next.fetch_add(1, Ordering::Relaxed);
+                    if i >= plans.len() {
+                        break;
+                    }
+                    if Instant::now() > deadline {
+                        st.capped = true;
+                        break;
+                    }
+                    let ops = &plans[i];
+                    let base = match layout_of(ops, &Ctx::identity_map()) {
+                        Ok(l) => l,
+                        Err(e) => {
+                            col.add(Finding { prop: "MACHINERY".into(), sig: "sweep-plan-rejected".into(), msg: e, replay: json!({}), size: 0 });
+                            continue;
+                        }
+                    };
+                    st.states += 1;
+                    'pairs: for a in 0..nids {
+                        for b in 0..nids {
+                            if a == b {
+                                continue;
+                            }
+                            let map = vec![(NCONCRETE + a) as u8, (NCONCRETE + b) as u8, 2, 3, 4, 5];
+                            st.barrier_metamorphic += 1;
+                            st.transitions += ops.len() as u64;
+                            match layout_of(ops, &map) {
+                                Ok(l2) if l2 == base => {}
+                                Ok(l2) => {
+                                    col.add(Finding {
+                                        prop: "C19".into(),
+                                        sig: "plan-depends-on-resource-identity".into(),
+                                        msg: format!("resources P, Q relabelled to {:?}, {:?}: layout becomes {} | plan: {} | layout {}", crate::hsys::concrete_id(map[0]), crate::hsys::concrete_id(map[1]), l2.short(), plan_short(ops), base.short()),
+                                        replay: json!({"kind":"plan","ops":plan_json(ops),"resmap":map}),
+                                        size: ops.len() * 100 + plan_short(ops).len().min(99),
+                                    });
+                                    break 'pairs;
+                                }
+                                Err(e) => {
+                                    col.add(Finding { prop: "C19".into(), sig: "transformed-plan-rejected".into(), msg: format!("relabelled by {:?}: {} | plan: {}", &map[..2], e, plan_short(ops)), replay: json!({"kind":"plan","ops":plan_json(ops),"resmap":map}), size: ops.len() * 100 });
+                                    break 'pairs;
+                                }
+                            }
+                        }
+                    }
+                }
+                results.lock().unwrap().push((st, col));
+            });
+        }
+    });
+    let mut stats = E1Stats::default();
+    let mut col = Collector::default();
+    for (s2, c2) in results.into_inner().unwrap() {
+        stats.states += s2.states;
+        stats.transitions += s2.transitions;
+        stats.barrier_metamorphic += s2.barrier_metamorphic;
+        stats.capped |= s2.capped;
+        col.merge(c2);
+    }
+    stats.max_depth = len;
+    E1Result { stats, col, samples: vec![] }
+}
